@@ -120,6 +120,41 @@ def c14_class(case, obs):
     return {"kind": "seq", "threads": 1, "ops": _len_class(n), "mount": "none" if case.get("pre") == "none" else "mounted",
             "wrote": str("737461747573:s6f6b}" in steps), "called": str("^" in steps)}
 
+def c09_class(case, obs):
+    try:
+        n = int(case.get("n", "1"), 16); d = case.get("data", "-"); l = 0 if d == "-" else len(d) // 2
+        kind = ["value", "typed-array", "complex-array", "reader", "writer"][int(case.get("kind", "0"), 16)]
+        puller = ["blocking", "async", "websocket"][int(case.get("pull", "0"), 16)]
+    except (ValueError, IndexError):
+        n, l, kind, puller = 1, 0, "?", "?"
+    r = l % n
+    residue = "empty" if l == 0 else ("k*n" if r == 0 else ("k*n+1" if r == 1 else ("k*n-1" if r == n - 1 else "other")))
+    k = -(-l // n)
+    chunks = "0" if k == 0 else ("1" if k == 1 else ("2-3" if k <= 3 else "4+"))
+    pulls = obs.get("pulls", "")
+    end = "last" if "c1." in pulls else ("error" if pulls.endswith("e.9") else obs.get("crash", "?"))
+    return {"kind": kind, "puller": puller, "chunk_bytes": case.get("n", "?"), "depth": case.get("d", "?"),
+            "zstd": case.get("z", "?"), "residue": residue, "chunks": chunks,
+            "failure": "none" if case.get("f", "-") == "-" else "injected",
+            "segmented": str(case.get("w", "-") != "-"), "sleeps": str(case.get("slp", "0") != "0"), "end": end}
+
+def c04_class(case, obs):
+    sched = case.get("sched", "-"); steps = [] if sched == "-" else sched.split(";")
+    kinds = set(s.split(":")[0] for s in steps)
+    feats = [nm for k, nm in (("u","unknown-id"),("n","notify-inflight-id"),("N","notify-free-id"),("T","timeout"),("C","cancel")) if k in kinds]
+    reps = [s for s in steps if s.startswith("r:")]
+    if any(not s.endswith(":0") for s in reps): feats.append("duplicate")
+    try:
+        order = [int(s.split(":")[1], 16) for s in reps if s.endswith(":0")]
+        n = int(case.get("n", "0"), 16)
+    except ValueError:
+        order, n = [], 0
+    out = obs.get("out", obs.get("crash", ""))
+    return {"client": case.get("k"), "mode": case.get("mode"),
+            "callers": str(n) if n <= 6 else ("<=16" if n <= 16 else "<=64"),
+            "reordered": str(order != sorted(order)), "features": "+".join(feats) or "none",
+            "outcomes": "".join(sorted(set(t[0] for t in out.split(",") if t)))}
+
 PROPS = {
     "C01": {
         "harness": "c01", "driver": "c01", "shards": 16,
@@ -198,6 +233,20 @@ PROPS = {
         "classify": c14_class,
         "nontrivial": lambda cls: cls["wrote"] == "True" or cls["called"] == "True",
         "rule": "cases = every sequence of length <=4 (quick) / <=5 (thorough) over write/read/register_function/register_value on 3 pointers x 3 values (18 symbols), directly and (one level shallower) through Router::with_registry; directed malformed pointers, array-index spellings and mount prefixes x paths; random sequences <=100 ops over pointers with ~0/~1 escapes, empty tokens, index aliases, deep nesting, a third through a mount with JSON/UTF-8/raw/unsupported bodies; after every operation the answer (value / error code / RegistryError variant), the whole root document and the call log are recorded, plus eval_json_pointer/parse_json_pointer on reads; 2-4 threads x 1-4 concurrent requests on a fixed function table with logical timestamps, checked by linearizability search (real-time order) against the extracted model and specification; distinct = distinct case; non-trivial = a write succeeded or a callable ran",
+        "timeout_s": {"quick": 900, "thorough": 3400},
+    },
+    "C09": {
+        "harness": "c09", "driver": "c09", "shards": 8, "harness_shards": 8,
+        "classify": c09_class,
+        "nontrivial": lambda cls: cls["chunks"] != "1" or cls["failure"] != "none",
+        "rule": "real sync-TCP and WebSocket servers, one SVS producer per (kind, element type, chunk_bytes, session_depth, compression); byte producers (reader, writer): payload lengths 0..3n+1 for n in {1,2,3,7,8}, all boundary residues k*n-1, k*n, k*n+1 for n in {64, 4096} (+65536, 1 MiB thorough), depths 0..3 (quick) / 0..8 (thorough), both compressions; every split of tiny payloads into <=3 writes plus random segmentations incl. zero-length and over-long writes; failure injected at 0, 1, L and every chunk boundary +-1; random sleeps in producer and consumer; BEVE producers (serde value, typed arrays, complex array) around the same boundaries; pullers blocking / async / WebSocket; per case: raw peer open, next until last or error, one more next; second stream with cancel then next; pull_to_vec / pull_value / pull_typed_slice / pull_complex_slice re-encoded; for zstd the harness decompresses the pulled bodies itself; distinct = distinct case line; non-trivial = not a single-chunk clean stream",
+        "timeout_s": {"quick": 900, "thorough": 3400},
+    },
+    "C04": {
+        "harness": "c04", "driver": "c04", "shards": 2, "harness_shards": 8,
+        "classify": c04_class,
+        "nontrivial": lambda cls: cls["callers"] != "1" and (cls["reordered"] == "True" or cls["features"] != "none"),
+        "rule": "cases = for each client (blocking, async, WebSocket): every permutation of the reply order for n<=4 (quick) / n<=6 (thorough) concurrent callers on clones of one client, each once plain and once with injected unknown-id, duplicate and (WebSocket) notify frames (reusing in-flight and free ids); random orders with unanswered callers for n<=16 / n<=64; batch_json of 1..40 requests answered in a shuffled order; 200 / 2000 model-sampled interleavings of register/write/receive-match/deliver/timeout/cancel for 2-4 callers, forced by parking threads/tasks at the verif-hooks probe points; observation = caller -> (reply tag | timeout | cancel | io error), subscriber tags, sorted request ids seen by the raw server; distinct = distinct case; non-trivial = >1 caller and (reordered replies or an injected/timeout/cancel step)",
         "timeout_s": {"quick": 900, "thorough": 3400},
     },
 }
